@@ -75,9 +75,18 @@ func genCase(t *rapid.T) Case {
 	for p := 0; p < nph; p++ {
 		var ph Phase
 		n := rapid.IntRange(1, 30).Draw(t, "nops")
-		if rapid.IntRange(0, 5).Draw(t, "bigphase") == 0 {
+		switch rapid.SampledFrom([]string{"burst", "burst", "burst", "big", "trickle", "trickle"}).Draw(t, "phasekind") {
+		case "big":
 			// more than one catch-up round (the primary sends at most 100 entries per round)
 			n = rapid.IntRange(101, 160).Draw(t, "nops_big")
+		case "trickle":
+			// one or two writes pushed to a replica that has been idle for longer than
+			// its 1 s receive timeout (state WAITING_FOR_DATA, abandoned Recv calls
+			// pending on the stream): only the primary's periodic catch-up can deliver them
+			n = rapid.IntRange(1, 2).Draw(t, "nops_trickle")
+			if p > 0 {
+				c.Phases[p-1].PauseMs = rapid.SampledFrom([]int{1300, 2500}).Draw(t, "idle_before")
+			}
 		}
 		for i := 0; i < n; i++ {
 			kind := rapid.SampledFrom([]string{"put", "put", "put", "put", "put", "put", "del", "del", "tx", "tx", "flush"}).Draw(t, "op")
@@ -114,6 +123,27 @@ func genCase(t *rapid.T) Case {
 		}
 		ph.PauseMs = rapid.SampledFrom([]int{0, 0, 50, 300, 1500}).Draw(t, "pause")
 		c.Phases = append(c.Phases, ph)
+	}
+	// open finding D18c: a single last write that arrives after a replica (re)opened
+	// its stream with exactly that sequence number as start sequence is neither
+	// pushed (broadcastToReplicas skips entries <= StartSequence) nor polled
+	// (LastAckSequence starts at StartSequence). With the flag off the last phase
+	// holds at least two writes (the second one makes the replica ask for the first).
+	if !ev.Flag("single_trailing_write") {
+		last := &c.Phases[len(c.Phases)-1]
+		w := 0
+		for _, o := range last.Ops {
+			if o.Op != "flush" {
+				w++
+			}
+		}
+		if w < 2 {
+			ev.R().Exclude("single_trailing_write")
+			for ; w < 2; w++ {
+				last.Ops = append(last.Ops, Op{Op: "put", K: rapid.IntRange(0, nk-1).Draw(t, "k_extra"), V: value(t, tag, vo)})
+				tag++
+			}
+		}
 	}
 	c.FastHeartbeat = rapid.Bool().Draw(t, "fast_heartbeat")
 	nrep := rapid.SampledFrom([]int{1, 1, 2}).Draw(t, "nrep")
@@ -230,6 +260,15 @@ func classify(c *Case) (bool, []string) {
 	}
 	if joinedFromStart {
 		cl = append(cl, "join_before_writes")
+	}
+	if lw := len(c.Phases[len(c.Phases)-1].Ops); lw == 1 {
+		cl = append(cl, "single_trailing_write")
+	}
+	for i, ph := range c.Phases {
+		if i > 0 && len(ph.Ops) <= 2 && c.Phases[i-1].PauseMs >= 1300 {
+			cl = append(cl, "trickle_after_idle")
+			break
+		}
 	}
 	if s.writes > 100 {
 		cl = append(cl, "more_than_100_log_entries")
